@@ -18,12 +18,42 @@ REPO = os.environ.get("VERIF_REPO", "/repo")
 COQ = os.path.join(VERIF, "coq")
 BUILD = os.path.join(VERIF, "build")
 HARNESS = os.path.join(VERIF, "harness")
+EVIDENCE = os.path.join(VERIF, "evidence")
 CFG = "incan_verif"
+ALT = None
+
+
+def _setup_alt():
+    """VERIF_REPO=/some/scratch/worktree: run the checks against another copy of the repository
+    (mutation experiments) WITHOUT touching /repo, /verif/coq, /verif/harness or /verif/evidence:
+    private copies of coq/ and harness/ (paths rewritten) live under build/alt/<hash>/."""
+    global COQ, HARNESS, EVIDENCE, ALT
+    if os.path.realpath(REPO) == "/repo":
+        return
+    h = hashlib.sha1(os.path.realpath(REPO).encode()).hexdigest()[:10]
+    ALT = os.path.join(BUILD, "alt", h)
+    os.makedirs(ALT, exist_ok=True)
+    ex = ["--exclude=*.vo", "--exclude=*.vok", "--exclude=*.vos", "--exclude=*.glob", "--exclude=*.aux", "--exclude=Gen/",
+          "--exclude=Makefile", "--exclude=Makefile.conf", "--exclude=.Makefile.d", "--exclude=_CoqProject", "--exclude=.lia.cache"]
+    subprocess.run(["rsync", "-a"] + ex + [COQ + "/", os.path.join(ALT, "coq") + "/"], check=True)
+    subprocess.run(["rsync", "-a", "--exclude=target/", "--exclude=Cargo.toml", "--exclude=Cargo.lock",
+                    HARNESS + "/", os.path.join(ALT, "harness") + "/"], check=True)
+    toml = open(os.path.join(HARNESS, "Cargo.toml")).read().replace('"/repo', '"' + os.path.realpath(REPO))
+    tp = os.path.join(ALT, "harness", "Cargo.toml")
+    if not os.path.exists(tp) or open(tp).read() != toml:
+        open(tp, "w").write(toml)
+    COQ = os.path.join(ALT, "coq")
+    HARNESS = os.path.join(ALT, "harness")
+    EVIDENCE = os.path.join(ALT, "evidence")
+    os.environ["VERIF_COQ_DIR"] = COQ
 
 FORBIDDEN = re.compile(
     r"\b(Admitted|admit|Axiom|Axioms|Parameter|Parameters|Conjecture|Conjectures|Hypothesis|Hypotheses|Variable|Variables|"
     r"Admit Obligations|bypass_check|native_compute)\b|Unset\s+Guard|Unset\s+Positivity|Unset\s+Universe|type-in-type|impredicative-set"
 )
+
+
+_setup_alt()
 
 
 class Infra(Exception):
@@ -98,11 +128,21 @@ def rs2v(units=None):
     env = {}
     if units:
         env["RS2V_ONLY"] = ",".join(units)
-    with Lock("coq"):
+    spec = json.load(open(os.path.join(VERIF, "rs2v.json")))
+    extra_dir = os.path.join(VERIF, "rs2v.d")
+    if os.path.isdir(extra_dir):
+        for f in sorted(os.listdir(extra_dir)):
+            if f.endswith(".json"):
+                spec.extend(json.load(open(os.path.join(extra_dir, f))))
+    os.makedirs(BUILD, exist_ok=True)
+    merged = os.path.join(BUILD, "rs2v.merged.%d.json" % os.getpid())
+    json.dump(spec, open(merged, "w"))
+    with Lock("coq-" + hashlib.sha1(COQ.encode()).hexdigest()[:8]):
         e = dict(os.environ)
         e.update(env)
-        p = subprocess.run([binary, "rs2v", REPO, os.path.join(VERIF, "rs2v.json"), os.path.join(COQ, "Gen")],
+        p = subprocess.run([binary, "rs2v", REPO, merged, os.path.join(COQ, "Gen")],
                            capture_output=True, text=True, env=e)
+    os.remove(merged)
     if p.returncode not in (0, 3):
         raise Infra("rs2v crashed: " + p.stderr[-2000:])
     rep = json.loads(p.stdout)
@@ -112,9 +152,8 @@ def rs2v(units=None):
 
 def coq_build(targets, timeout=1500):
     """Full .vo build of the given targets through coq_makefile. Returns (ok, log)."""
-    with Lock("coq"):
-        rc, out, err = sh([os.path.join(VERIF, "bin", "coqbuild")] + list(targets), timeout=timeout + 60,
-                          env={"COQ_TIMEOUT": str(timeout)})
+    rc, out, err = sh([os.path.join(VERIF, "bin", "coqbuild")] + list(targets), timeout=timeout + 600,
+                      env={"COQ_TIMEOUT": str(timeout)})
     return rc == 0, out + err
 
 
@@ -142,10 +181,9 @@ def coq_props(prop_dir, allow=()):
     """(Re)check <prop_dir>/Props.v, return dict theorem -> list of axioms (from Print Assumptions).
     Raises nothing on proof failure: returns (ok, theorems, log)."""
     vo = os.path.join(COQ, prop_dir, "Props.vo")
-    with Lock("coq"):
-        if os.path.exists(vo):
-            os.remove(vo)
-        rc, out, err = sh([os.path.join(VERIF, "bin", "coqbuild"), prop_dir + "/Props.vo"], timeout=1600)
+    if os.path.exists(vo):
+        os.remove(vo)
+    rc, out, err = sh([os.path.join(VERIF, "bin", "coqbuild"), prop_dir + "/Props.vo"], timeout=2400)
     text = out + err
     if rc != 0:
         return False, {}, text
@@ -270,7 +308,7 @@ def known_findings(prop):
     p = os.path.join(VERIF, "known_findings.json")
     if not os.path.exists(p):
         return []
-    return [f for f in json.load(open(p)) if f.get("property") == prop]
+    return [f for f in json.load(open(p)) if isinstance(f, dict) and f.get("property") == prop]
 
 
 # ----------------------------------------------------------------------------- check driver
@@ -362,7 +400,7 @@ class Check:
     # --- finish
     def finish(self, level="proof"):
         wall = time.time() - self.t0
-        os.makedirs(os.path.join(VERIF, "evidence", "replays"), exist_ok=True)
+        os.makedirs(os.path.join(EVIDENCE, "replays"), exist_ok=True)
         cov = dict(self.coverage)
         cov["obligations"] = self.obligations
         cov["discharged"] = self.discharged
@@ -381,7 +419,7 @@ class Check:
             "coverage": cov, "assumptions": self.assumptions, "wall_s": round(wall, 2),
             "violations": len(self.violations),
         }
-        with open(os.path.join(VERIF, "evidence", self.prop + ".json"), "w") as f:
+        with open(os.path.join(EVIDENCE, self.prop + ".json"), "w") as f:
             json.dump(ev, f, indent=1, default=str)
         for fid, line in sorted(self.known_hits.items()):
             print("KNOWN-FINDING: property=%s %s" % (self.prop, line))
@@ -391,7 +429,7 @@ class Check:
             return 0
         # one replay file; prefer a concrete failing input
         self.violations.sort(key=lambda v: v["no_failing_input_found"])
-        rp = os.path.join(VERIF, "evidence", "replays", "%s-%s-%d.json" % (self.prop, self.tier, int(time.time())))
+        rp = os.path.join(EVIDENCE, "replays", "%s-%s-%d.json" % (self.prop, self.tier, int(time.time())))
         with open(rp, "w") as f:
             json.dump({"property": self.prop, "seed": self.seed, "tier": self.tier,
                        "replay_cmd": "bin/vcheck %s --replay %s" % (self.prop, rp),
